@@ -167,6 +167,11 @@ OPS = [
     ('m_xsl', lambda em, e: em.expand('!!!+tm', {'syntax': 'xsl'})),
     ('m_wrap_empty_list', lambda em, e: em.expand('ul>li*+a', e['TE'])),
     ('m_wrap_empty_str', lambda em, e: em.expand('ul>li*+a', e['TS'])),
+    # markup calls through a shared cache that differ in variables / maxRepeat only
+    ('m_doc_cache', lambda em, e: em.expand('!', {'cache': e['C1']})),
+    ('m_doc_cache_vars', lambda em, e: em.expand('!', {'cache': e['C1'], 'variables': {'lang': 'de', 'charset': 'ISO-8859-1'}})),
+    ('m_rows_cache_limit', lambda em, e: em.expand('rows+a', {'cache': e['C1'], 'snippets': {'rows': 'tr*4>td'}, 'maxRepeat': 2})),
+    ('m_rows_cache', lambda em, e: em.expand('rows+a', {'cache': e['C1'], 'snippets': {'rows': 'tr*4>td'}})),
     ('seq_edit_call_config', seq_edit_call_config),
     ('after_edit_call_config', lambda em, e: em.expand('br+zq', {'options': {'output.selfClosingStyle': 'xhtml', 'output.format': False}, 'snippets': {'zq': 'span.q'}})),
     ('seq_edit_global_config', seq_edit_global_config),
